@@ -239,3 +239,11 @@ Example comp_bt_values :
              | (Some gs, _) => existsb (fun T => regen_exact T rG_ rH_) gs
              | _ => false end) [SMember 0%N; SMember 1%N; SMember 2%N] = true.
 Proof. vm_compute. reflexivity. Qed.
+
+(** C04_separating_boolean: the boolean is true on CH3I + NH3 (two pattern components C-I ; N in two molecules) and false on
+    the refutation witness (O and C-Br of one molecule) *)
+Example separating_values :
+  id_separatingb (tr_host oe_host) (tr_pat (pattern_of oe_left)) = true /\ id_separatingb (tr_host i_host) (tr_pat i_pat) = false /\
+  length (comps (tr_pat (pattern_of oe_left))) = 2%nat /\ length (comps (tr_host oe_host)) = 2%nat /\
+  length (comps (tr_pat i_pat)) = 2%nat /\ length (comps (tr_host i_host)) = 2%nat.
+Proof. vm_compute. repeat split; reflexivity. Qed.
